@@ -191,7 +191,16 @@ def library_exception(pid, e):
                 e, where, os.path.basename(lib[-1].filename), lib[-1].lineno))
 
 
+def private_cwd():
+    """Every execution starts in an empty working directory of its own: a
+    file the library drops into the current directory (instead of where it
+    was told to) cannot collide with another worker's, and never lands in
+    /verif."""
+    os.chdir(fresh_dir("cwd"))
+
+
 def _run_one(mod, case):
+    private_cwd()
     try:
         # (a private copy: the library must not be able to change the case
         # the verdict is recorded against)
@@ -245,6 +254,7 @@ class LibraryRaised:
 
 
 def _call(mod, fname, payload):
+    private_cwd()
     try:
         return getattr(mod, fname)(copy.deepcopy(payload))
     except HarnessError:
@@ -254,6 +264,7 @@ def _call(mod, fname, payload):
         if not verdict:
             raise
         # confirm by an immediate second execution
+        private_cwd()
         try:
             getattr(mod, fname)(copy.deepcopy(payload))
         except Exception as e2:
